@@ -18,7 +18,7 @@ EXPLANATION = (
     "crate's validators are trusted.")
 # every anchor of these rules lives in the h3 crate: thorough tier repeats them on the feature-less build
 EXTRA_CONFIGS = ["h3-plain"]
-RULES = "C12-a field gate (A11/A2); C12-b message gates (A3/A2); C12-c refusal class (A3); C12-d sending order and values, CONNECT pseudo-header table (A2/A4/A3)"
+RULES = "C12-a field gate (A11/A2); C12-b message gates (A3/A2); C12-c refusal class (A3); C12-d sending order and values, CONNECT pseudo-header table (A2/A4/A3); shared through a proxy: the malformed-message rows of C07-a under C12-c"
 
 H = "h3::proto::headers::"
 
@@ -81,6 +81,9 @@ def pseudo_name_table(ctx, rule, fp):
 
 def run(ctx):
     prog = ctx.prog
+    # the codes this property names are the registry values (the rules below speak of them by name)
+    from rules import shared as _shc
+    _shc.error_code_values(ctx, "C12-c", ("H3_MESSAGE_ERROR",))
     # ------------------------------------------------------------------ C12-a
     fp = ru.need(ctx, "C12-a", H + "Field::parse")
     if fp:
@@ -397,4 +400,9 @@ def run(ctx):
                 return n in dnone and v[0] == "proj" and v[1][0] == "call" and v[1][1] == "<h3::proto::headers::Pseudo as core::default::Default>::default" and tuple(v[2]) == (n,)
             ok = vals["status"] == ("agg", "core::option::Option::Some", (("param", 1, ()),)) and all(is_none(n, v) for n, v in vals.items() if n != "status")
             ctx.check(ok, "C12-d", rsps.key, "responses carry exactly :status = the caller's status", "Pseudo::response = %s" % {n: fl.fmt(v) for n, v in vals.items()}, "")
+    # (c) how a malformed message is refused - on its stream, with H3_MESSAGE_ERROR in the error the application gets - is the outcome
+    # table of C07-a: its malformed-request / -response / -trailers rows run under this property too
+    if not getattr(ctx, "nested", False):
+        from rules import C07 as _c07, shared as _sh
+        _c07.run(_sh.Proxy(ctx, ("C07-a",), "C12-c", constructs=("malformed request", "malformed response", "malformed trailers")))
     ctx.assume("http::{HeaderName::from_lowercase, HeaderValue::from_bytes, Method/StatusCode::from_bytes, Uri builder, FromStr impls} validate as documented")
